@@ -107,11 +107,56 @@ def harness(env, case):
         env.prove_equal(R.reshape(-1), E, "y[level]: 1 exactly where y equals the level")
     elif kind.startswith("prop"):
         trials = df["n"].values if kind == "prop:col" else np.array([7] * n, dtype=object)
+        if env.mode == "sym":
+            env.prove(z3.And([symx.to_z3(df["s"].values[i]) <= symx.to_z3(trials[i]) for i in range(n)]), "prop accepted: successes do not exceed trials in any row")
+        else:
+            env.prove(all(df["s"].values[i] <= trials[i] for i in range(n)), "prop accepted: successes do not exceed trials in any row")
         env.prove(R.shape == (n, 2), "prop: two columns")
         if R.shape == (n, 2):
             env.prove_equal(R[:, 0], df["s"].values, "prop: first column = successes")
             env.prove_equal(R[:, 1], trials, "prop: second column = trials")
         env.prove(dm.response.kind == "proportion", "prop response kind")
+
+
+def concrete_edge_cases(rep):
+    """boundaries that need concrete dtypes / shapes: successes of small integer or boolean dtype with
+    constant trials, one-row frames, one-level categorical responses (plain API, exact comparison)"""
+    from formulae import design_matrices
+
+    def bad(what, detail):
+        rep.violations.append({"label": what, "signature": {"what": what, "part": "edge"}, "replay": {"detail": detail}, "reproduced": True, "detail": detail})
+
+    n_checked = 0
+    for dtype in ("int8", "int16", "uint8", "int32", "bool"):
+        s = np.array([1, 0, 1, 1], dtype=dtype)
+        df = pd.DataFrame({"s": s, "x": [0.5, 1.5, 2.5, 3.5]})
+        for const in (1, 5, 300):
+            try:
+                R = np.asarray(design_matrices(f"prop(s, {const}) ~ x", df).response.design_matrix)
+            except Exception as e:  # noqa
+                bad("prop with constant trials fails on valid small-integer / boolean successes", f"dtype={dtype} const={const}: {type(e).__name__}: {e}")
+                continue
+            n_checked += 1
+            if R.shape != (4, 2) or not (R[:, 0].astype(int) == s.astype(int)).all() or not (R[:, 1].astype(int) == const).all():
+                bad("prop: (successes, trials) columns", f"dtype={dtype} const={const}: {R.tolist()}")
+    one = pd.DataFrame({"y": [2.5], "x": [1.0], "g": ["a"], "s": [1], "n": [3]})
+    three = pd.DataFrame({"y": [2.5, 1.0, 0.5], "x": [1.0, 2.0, 4.0], "g": ["a", "a", "a"]})
+    for formula, frame, shape in (("y ~ x", one, (1,)), ("g ~ x", one, (1, 1)), ("g[a] ~ x", one, (1,)), ("prop(s, n) ~ x", one, (1, 2)), ("g ~ x", three, (3, 1))):
+        try:
+            R = np.asarray(design_matrices(formula, frame).response.design_matrix)
+        except Exception as e:  # noqa
+            bad("response of a one-row frame / one-level factor cannot be built", f"{formula}: {type(e).__name__}: {e}")
+            continue
+        n_checked += 1
+        if R.shape != shape and R.reshape(-1).shape != shape:
+            bad("response has one row per observation and one column per level", f"{formula}: shape {R.shape}, expected {shape}")
+        elif R.ndim and R.shape[0] != len(frame):
+            bad("response has one row per observation and one column per level", f"{formula}: shape {R.shape}")
+        elif R.ndim == 0:
+            bad("response has one row per observation and one column per level", f"{formula}: shape {R.shape}")
+        elif formula.startswith("g ~") and R.shape != shape:
+            bad("response has one row per observation and one column per level", f"{formula}: shape {R.shape}, expected {shape}")
+    rep.extra["concrete_edge_cases"] = n_checked
 
 
 def run(tier, seed):
@@ -125,5 +170,6 @@ def run(tier, seed):
     rep.assumptions = []
     rep.rule = "one case = (response form, right-hand side, flavour); prop cases fork on successes <= trials per row; non-trivial = response present"
     pipe.run_cases(rep, "vf.props.c15", "harness", cs)
+    concrete_edge_cases(rep)
     rep.nontrivial = int(rep.reach.get("response present", 0))
     return core.finish(rep)
